@@ -220,6 +220,15 @@ def _inter_for(z, t_ob_oa, witness):
 def run_shard(shard):
     import pendulum
     acc = core.Acc(ID)
+    if shard.get("kind") == "chains":
+        from .. import chain
+        for sd in shard["seeds"]:
+            chain.explore(acc, pendulum, sd["z"], sd["inst"], sd["zones"], shard["depth"], {'conv'})
+            acc.c["nontrivial"] += 1
+        acc.sample({"chain_seed": [shard["seeds"][0]["z"], obs.iso(shard["seeds"][0]["inst"])], "depth": shard["depth"],
+                    "zones": [str(z) for z in shard["seeds"][0]["zones"]],
+                    "ops": "in_timezone x zones, add/subtract hours/minutes/seconds, +/- timedelta, add days/weeks/months"})
+        return acc.result()
     witness = shard["witness"]
     states = 0
     if shard["kind"] == "zones":
@@ -268,6 +277,10 @@ def run_shard(shard):
 
 def replay_case(case, acc):
     import pendulum
+    if case.get("kind") == "chain":
+        from .. import chain
+        chain.replay(acc, pendulum, case, {'conv'})
+        return
     z, inst = case["z"], case["inst"]
     if case["kind"] == "pair":
         u = obs.utc_dt(pendulum, inst)
@@ -296,6 +309,9 @@ def plan(tier, seed):
     zones = list(seeds.all_zones()) + list(seeds.WITNESS_FIXED) + [34200, -12600, 45 * 60 + 5 * 3600]
     shards = [{"kind": "zones", "zones": ch, "limit": 0 if thorough else 12, "full": thorough,
                "seed": seed, "witness": witness} for ch in seeds.chunks(zones, 64)]
+    from .. import chain
+    cs = chain.chain_seeds(seed, 3 if not thorough else 8)
+    shards += [{"kind": "chains", "seeds": ch, "depth": 3, "witness": witness} for ch in seeds.chunks(cs, 32)]
     plans = [({"ext": 1, "tz": "sys"}, shards)]
     if thorough:
         plans.append(({"ext": 0, "tz": "pkg"}, shards))
